@@ -8,6 +8,7 @@ import JSV.Proofs.RefineMono
 import JSV.Proofs.RefineSpecMono
 import JSV.Proofs.RefineCheck
 import JSV.Proofs.Defined
+import JSV.Proofs.DefinedGuarded
 namespace JSV.C01
 open JSV Go GoVal Refine
 
@@ -153,6 +154,12 @@ theorem ranked_iff (env : VEnv) :
 theorem ranked_guarded (env : VEnv) (hr : ranked env = true) : guarded env = true :=
   Refine.ranked_guarded env hr
 
+/-- … and it is a COMPLETE certificate: when the edge targets are nodes of the store (`closed`), the cycle search finds no
+    in-place cycle iff the rank table decreases along every edge.  (⇐ above; ⇒: the search with `size + 1` rounds is
+    exhaustive, and without cycles `size + 1` rounds of longest-path relaxation reach a fixed point.) -/
+theorem guarded_iff_ranked (env : VEnv) (hc : closed env = true) : guarded env = true ↔ ranked env = true :=
+  ⟨Refine.guarded_ranked env hc, Refine.ranked_guarded env⟩
+
 /-- the ranks are bounded by the size of the store -/
 theorem maxRank_le_size (env : VEnv) : maxRank env ≤ env.st.size + 1 := Refine.maxRank_le_size env
 
@@ -214,6 +221,17 @@ theorem C01_main_guarded (env : VEnv) (hwf : EnvWF env) (hst : StoreWF env.st)
     refine ⟨⟨fun h => ?_, fun h => ?_⟩, ⟨fun _ => rfl, fun _ => rfl⟩, Or.inr rfl⟩
     · cases h
     · cases h
+
+/-- the same with the cycle search `guarded` as the hypothesis (the prefilter of the correspondence runs) -/
+theorem C01_main_of_guarded (env : VEnv) (hwf : EnvWF env) (hst : StoreWF env.st)
+    (hg : guarded env = true) (hc : closed env = true) (fuel : Nat) (root : NodeId) (j : Json)
+    (hj : Json.WF j = true) (supported : List String) (rn : Node) (hroot : env.st.get? root = some rn)
+    (hsup : supported.contains rn.schema = true) (hf : (Json.depth j + 1) * (maxRank env + 1) ≤ fuel) :
+    (Go.validate env supported fuel root (GoVal.ofJson j) = .ok () ↔ Spec.valid (specEnvOf env) fuel root j = some true) ∧
+    (Go.validate env supported fuel root (GoVal.ofJson j) = .err ↔ Spec.valid (specEnvOf env) fuel root j = some false) ∧
+    (Go.validate env supported fuel root (GoVal.ofJson j) = .ok () ∨
+      Go.validate env supported fuel root (GoVal.ofJson j) = .err) :=
+  C01_main_guarded env hwf hst ((guarded_iff_ranked env hc).1 hg) hc fuel root j hj supported rn hroot hsup hf
 
 /-- the same against the fuel-free reading of the Spec ("valid with SOME fuel"): the fuel of the Spec side is
     immaterial once the evaluator has `(depth j + 1) * (maxRank env + 1)` -/
@@ -308,6 +326,7 @@ example : (Go.validateFuel cexEnv 2 [0] (GoVal.ofJson .null) 0).isOk = true := b
 example : ranked exEnv = true := by decide
 example : closed exEnv = true := by decide
 example : guarded exEnv = true := by decide
+example : ranked exEnv = true := (guarded_iff_ranked exEnv (by decide)).1 (by decide)
 example : maxRank exEnv = 1 := by decide
 example : Json.depth exBad = 1 := by decide
 /-- `C01_main_guarded` applied: fuel (1 + 1) * (1 + 1) = 4 decides, nothing about the Spec is assumed -/
